@@ -163,6 +163,21 @@ fn check_time(ctx: &Ctx, env: &Env, case: &CaseId, t: &TimeSpec, with_crl: bool,
 						}
 						if let Some(r) = v.revoked.as_ref().and_then(|r| r.first()) {
 							check_field(ctx, case, &label, "revocationDate", t, &r.time);
+							// the entry's invalidityDate is a time field of the CRL too: same instant, Z, no fraction,
+							// always GeneralizedTime (RFC 5280 5.3.2)
+							let inv = r.exts.iter().flatten().find(|e| e.oid == x509::OID_INVALIDITY).map(|e| derx::parse_exact(&e.value, true).and_then(|tlv| x509::parse_time(&tlv)));
+							ctx.count("eval:encodings:invalidityDate");
+							let (y, mo, d, h, mi, sec) = civil_from_unix(t.unix);
+							let want = format!("{:04}{:02}{:02}{:02}{:02}{:02}Z", y, mo, d, h, mi, sec);
+							match inv {
+								Some(Ok(g)) if g.tag == derx::GENTIME && g.text == want && g.unix == t.unix => {},
+								other => ctx.violation(
+									&format!("c09:{}:invalidityDate", match &other { Some(Ok(g)) if g.unix != t.unix => "instant", Some(Ok(_)) => "form", _ => "text" }),
+									case,
+									&label,
+									&format!("invalidityDate: encoded {:?}, model GeneralizedTime {:?} (unix {})", other, want, t.unix),
+								),
+							}
 						} else {
 							ctx.violation("c09:missing-revoked", case, &label, "revoked entry absent");
 						}
